@@ -3,7 +3,7 @@
     reference model of the hifijson lexer). *)
 From Coq Require Import List ZArith.
 From Coq Require Import Init.Byte.
-From JaqV Require Import Base.Bytes Json.Write Json.Read Proofs.JsonString.
+From JaqV Require Import Base.Bytes Val.Num Json.Write Json.Read Proofs.JsonString Proofs.DigitLaws Proofs.JsonInt.
 Import ListNotations.
 
 (** text strings: for every byte string (control characters, quotes, backslashes, DEL, invalid UTF-8), what the
@@ -32,3 +32,13 @@ Theorem bytestring_roundtrip : forall s n rest, (length s <= n)%nat ->
   parse_string (S n) true (flat_map (write_byte false) s ++ zb 34%Z :: rest) [] = POk s rest.
 Proof. intros. apply (bytes_roundtrip_go s n rest []). assumption. Qed.
 Print Assumptions bytestring_roundtrip.
+
+(** integers of any size: the digits that [Display] writes are read back as the same integer ... *)
+Theorem integer_literal_roundtrip : forall z, parse_int_dec (Z_to_dec z) = Some z.
+Proof. exact DigitLaws.parse_int_dec_print. Qed.
+Print Assumptions integer_literal_roundtrip.
+
+(** ... through the JSON number lexer, for machine and big integers as the writer prints them *)
+Theorem json_integer_roundtrip : forall z, parse_num (show_num (int_or_big z)) = POk (int_or_big z) [].
+Proof. exact JsonInt.json_integer_roundtrip. Qed.
+Print Assumptions json_integer_roundtrip.
